@@ -50,7 +50,7 @@ IMPL_ROWS = ('scroll_up', 'scroll_down', 'lf', 'crlf', 'newline', 'cursor_up_rev
 
 
 def shards(tier):
-    n = 1500 if tier == 'quick' else 60000
+    n = 4000 if tier == 'quick' else 60000
     out = []
     if tier == 'thorough':
         out += [{'kind': 'sweep', 'dims': d, 'part': k, 'parts': 8} for d in ([1, 1], [1, 2], [2, 2]) for k in range(8)]
